@@ -190,10 +190,11 @@ class Family:
             fs = ", ".join(f"{f['n']!r}: {ft(f)}" for f in d["fields"])
             return (f"{d['name']} = TypedDict({d['name']!r}, {{{fs}}}, "
                     f"total={d.get('total', True)})\n")
-        lines = [f"class {d['name']}(TypedDict, total={d.get('total', True)}):"]
-        for f in d["fields"]:
+        lines = [f"class {d['name']}({d.get('base') or 'TypedDict'}, total={d.get('total', True)}):"]
+        own = [f for f in d["fields"] if not f.get("inherited")]
+        for f in own:
             lines.append(f"    {f['n']}: {ft(f)}")
-        if not d["fields"]:
+        if not own:
             lines.append("    pass")
         return "\n".join(lines) + "\n"
 
